@@ -80,8 +80,13 @@ func vpC11Request(it vpC11Item) (raw string, exp vpC11Snap) {
 		exp.CType = "multipart/form-data; boundary=" + bd
 		exp.MPart = []string{"m" + id + "=val" + id}
 	case "expect-reject":
-		body = "rejected-body-" + id
-		b.WriteString("Expect: 100-continue\r\nX-Reject: 1\r\n")
+		if it.HasBody {
+			body = "rejected-body-" + id
+			b.WriteString("Expect: 100-continue\r\nX-Reject: 1\r\n")
+		} else {
+			// a rejected expectation that announces an empty body: nothing to skip, the connection may stay open
+			b.WriteString("Expect: 100-continue\r\nX-Reject: 1\r\nContent-Length: 0\r\n")
+		}
 	case "malformed":
 		return "GET /p" + id + " HTTP/1.1\r\nHost: h\r\nBad Header Line Without Colon\r\n\r\n", exp
 	default:
